@@ -46,7 +46,7 @@ class ForeverBreakWriteHandler(AbstractWriteHandler):
     def write_content(self) -> Vertex | None:
         """Print a break and end"""
         logger.debug("Handling a break_loop; (%s)...", self.start_vertex["op"])
-        self.decompiler.source_map_add_opcode(self.start_vertex["op"].offset)
+        self.decompiler.source_map_add_opcode_for_edge(self.start_vertex["op"].offset)
         self.decompiler.write_stmnt("break_loop;")
         exits = self.start_vertex.out_edges()
         if len(exits) == 1:
